@@ -13,6 +13,14 @@ PROPS = {
     note=TB + "Go's mutex, channel close and WaitGroup are assumed linearizable; a panicking operation is not modelled. Two genuine defects were repaired first (fix: commits 354a86d, e7da7ea) and the model mirrors the repaired code.",
     assumptions=["sync.Mutex / channel close / WaitGroup are linearizable", "operations do not panic", "each closure is enqueued once (fresh ids)"],
     design_ref="§6 C05"),
+ "C19": dict(
+    level="proof",
+    technique="Lean 4 theorems over a model of the repository's data-channel glue (parameter mapping round trip by case analysis; read-loop identity by list induction with a termination argument for buffer doubling) + end-to-end correspondence over real loopback connections",
+    text="PARTIAL by construction: the theorems cover this repository's code, the SCTP/DTLS/ICE stack is an explicit assumption. Modelled: DataChannel.open's mapping of (ordered, maxRetransmits, maxPacketLifeTime) to DCEP channel type + reliability parameter, acceptDataChannels' inverse mapping, readLoop (buffer doubling on io.ErrShortBuffer — pion/datachannel returns n = 0 then, so the loop doubles while 0 < maxMessageSize — copy-out, text/binary flag), and the Send/SendText open-state guard. C19_params_roundtrip: the remote side reconstructs exactly the creator's parameters for every valid combination; C19_recv_intact / C19_readloop_is_identity: for every list of messages of any sizes the loop delivers exactly the transport's messages, once each, in order, intact, and always terminates; C19_send_guard / C19_send_appends. Tie: one real loopback connection per op line (1–4 channels, in-band and pre-negotiated, ordered/unordered/partial-reliable, labels/protocols incl. empty and UTF-8; 5–60 text/binary messages incl. sizes 0, 65535, 65536, max−1, max, max+1 for several receiver max-message-size settings); delivered slices are retained and hashed at the end (catches buffer reuse); the Lean judge compares per-channel received lists with sent lists (lost / duplicated / reordered / corrupted) and the remote getters with the creator's parameters.",
+    note=TB + "ASSUMED, not modelled: pion/sctp + pion/datachannel deliver each accepted message once, in order on ordered streams, unchanged (the run exercises them); a connection that does not come up within its deadline is reported 'inconclusive', never a violation.",
+    assumptions=["the transport hands readLoop exactly the sent messages (pion/sctp, pion/datachannel, DTLS, ICE are external)",
+                 "sends larger than the receiver's announced max-message-size are refused by pion/sctp"],
+    design_ref="§6 C19"),
  "C22": dict(
     level="proof",
     technique="Lean 4 theorems over a model of updateConnectionState (full case analysis of the finite table; list induction for notification sequences) + exhaustive differential correspondence on all raw inputs",
